@@ -8,6 +8,8 @@ package main
 import (
 	"fmt"
 
+	"verifharness/internal/refcodec"
+
 	"verifharness/internal/idlgen"
 	"verifharness/internal/values"
 	"verifharness/internal/vl"
@@ -373,6 +375,90 @@ func mapType(t *idlgen.RType, v *values.Value, rec func(int, *values.Value) *val
 		return out
 	}
 	return v.Clone()
+}
+
+// setKey is the identity of a set element of struct type AS THE OLD CODE SEES IT: the normal form (what a
+// generated Read builds) of its projection onto the old schema. Two elements with equal keys are equal objects
+// for the old code WITHOUT keep_unknown_fields, whose Write (validate_set) refuses a set holding both — a
+// property of thrift sets, not of the generator under test.
+func setKey(newS, oldS *idlgen.Schema, sidx int, e *values.Value) string {
+	if e.IsNil() {
+		return "n"
+	}
+	po := project(newS, oldS, sidx, e)
+	if n, err := refcodec.Normal(oldS, sidx, po); err == nil {
+		po = n
+	}
+	return values.SortMaps(po).String()
+}
+
+// distinctSets drops, from every set<Struct> (and every map keyed by a struct) of v (struct sidx of the NEW schema, any depth outside fields the
+// old schema does not know), the elements that coincide with an earlier element once projected onto the OLD
+// schema: all elements then differ in a field every version of the schema has. dropped counts them.
+func distinctSets(newS, oldS *idlgen.Schema, sidx int, v *values.Value, dropped *int) *values.Value {
+	var rec func(sidx int, v *values.Value) *values.Value
+	var recT func(t *idlgen.RType, v *values.Value) *values.Value
+	rec = func(sidx int, v *values.Value) *values.Value {
+		if v.IsNil() {
+			return v
+		}
+		ns, os := newS.Structs[sidx], oldS.Structs[sidx]
+		out := &values.Value{K: v.K, E: make([]*values.Value, len(v.E))}
+		for j, f := range ns.Fields {
+			if os.FieldByID(f.ID) < 0 {
+				out.E[j] = v.E[j]
+				continue
+			}
+			out.E[j] = recT(f.Type, v.E[j])
+		}
+		return out
+	}
+	recT = func(t *idlgen.RType, v *values.Value) *values.Value {
+		if v.IsNil() {
+			return v
+		}
+		switch t.Kind {
+		case idlgen.RStruct:
+			return rec(t.Sidx, v)
+		case idlgen.RList, idlgen.RSet:
+			out := &values.Value{K: v.K}
+			seen := map[string]bool{}
+			for _, e := range v.E {
+				e2 := recT(t.Elem, e)
+				if t.Kind == idlgen.RSet && t.Elem.Kind == idlgen.RStruct {
+					k := setKey(newS, oldS, t.Elem.Sidx, e2)
+					if seen[k] {
+						*dropped++
+						continue
+					}
+					seen[k] = true
+				}
+				out.E = append(out.E, e2)
+			}
+			return out
+		case idlgen.RMap:
+			// struct-typed map keys are pointers in Go: two keys that look alike to the old code are still two entries
+			// (and their dump order is ambiguous) — unless the old struct has NO field and no buffer: pointers to
+			// zero-size objects coincide and the entries collapse. Keys are kept distinct as the old code sees them.
+			out := &values.Value{K: v.K}
+			seen := map[string]bool{}
+			for i := 0; i+1 < len(v.E); i += 2 {
+				k2 := recT(t.Key, v.E[i])
+				if t.Key.Kind == idlgen.RStruct {
+					k := setKey(newS, oldS, t.Key.Sidx, k2)
+					if seen[k] {
+						*dropped++
+						continue
+					}
+					seen[k] = true
+				}
+				out.E = append(out.E, k2, recT(t.Elem, v.E[i+1]))
+			}
+			return out
+		}
+		return v
+	}
+	return rec(sidx, v)
 }
 
 // unknownUnionMember reports whether v (struct sidx of the NEW schema) holds, at any depth, a union object
